@@ -208,11 +208,40 @@ class Check:
             self.obligations.append({"name": s, "status": "proved", "assumptions": ax if ax is not None else "n/a"})
             for a in ax or []:
                 self.axioms_seen.add(a)
+        if self.tier == "thorough":
+            self.coqchk(stmt_file)
         unknown = [a for a in self.axioms_seen if a not in STD_AXIOMS and not a.startswith(PRIMITIVE_PREFIXES)]
         if unknown:
             self.tie_broken("axiom-audit", stmt_file, "non-standard assumptions: " + ", ".join(unknown))
             return False
         return True
+
+    def coqchk(self, stmt_file, timeout=2400):
+        """thorough tier: re-check the compiled statement file and everything it depends on with the independent checker"""
+        mod = "PV.Props." + stmt_file[:-2]
+        cmd = ["coqchk", "-o", "-silent", "-R", str(COQ / "Lib"), "PV.Lib", "-R", str(COQ / "Model"), "PV.Model",
+               "-R", str(self.gen), "PV.Gen", "-R", str(self.props), "PV.Props", mod]
+        rc, so, se = sh(cmd, timeout=timeout)
+        out = so + se
+        self.checker_cmds.append("coqchk -o -silent -R ... " + mod)
+        if rc != 0:
+            self.tie_broken("coqchk", mod, out[-1500:])
+            return
+        m = re.search(r"\* Axioms:(.*?)\n\s*\n\* Constants/Inductives relying on type-in-type:(.*?)\n\s*\n\* Constants/Inductives relying on unsafe"
+                      r" \(co\)fixpoints:(.*?)\n\s*\n\* Inductives whose positivity is assumed:(.*?)(\n\s*\n|$)", out, flags=re.S)
+        if not m:
+            self.tie_broken("coqchk", mod, "unparsable summary: " + out[-600:])
+            return
+        axioms = [a.strip() for a in m.group(1).strip().splitlines() if a.strip() and a.strip() != "<none>"]
+        unsafe = [g.strip() for g in (m.group(2), m.group(3), m.group(4)) if g.strip() != "<none>"]
+        self.cov["coqchk"] = {"module": mod, "axioms": axioms, "unsafe_flags": unsafe}
+        if unsafe:
+            self.tie_broken("coqchk", mod, "kernel checks switched off: " + "; ".join(unsafe))
+        for a in axioms:
+            name = a.split()[0].split(":")[0]
+            short = ".".join(name.split(".")[-2:])
+            if not any(short == k or name.endswith(k) for k in STD_AXIOMS) and not any(p in name for p in PRIMITIVE_PREFIXES):
+                self.tie_broken("coqchk", mod, "axiom outside the standard library: " + a)
 
     @staticmethod
     def locate_lemma(path: Path, msg: str):
